@@ -95,15 +95,16 @@ pub fn limits_unit(thorough: bool) -> Unit {
 }
 
 /// A blocking Pull returns empty only at its wait limit, and non-empty as soon as something is available.
-fn blocking_unit(thorough: bool) -> Unit {
+pub fn blocking_unit(thorough: bool) -> Unit {
     let f: ScenFn = scen!(|cx| {
         must!(cx, "setup:create-topic", { let a = cx.api.clone(); async move { a.create_topic(T0).await } });
         must!(cx, "setup:create-sub", { let a = cx.api.clone(); async move { a.create_sub(S0, T0, 10, None).await } });
-        // event that makes a message available while the Pull waits: 0 nothing, 1 publish, 2 nack, 3 expiry
-        let ev = cx.choose("event", 4);
+        // event that makes a message available while the Pull waits: 0 nothing, 1 publish, 2 nack, 3 expiry,
+        // 4 = fruitless wake-ups (empty Publish requests; messages another consumer takes first) and then nothing
+        let ev = cx.choose("event", 5);
         let max = [1, 10][cx.choose("max", 2)];
         let mut held: Vec<Rm> = vec![];
-        if ev >= 2 {
+        if ev == 2 || ev == 3 {
             must!(cx, "setup:publish", { let a = cx.api.clone(); async move { a.publish(T0, vec![(b"m".to_vec(), vec![])]).await } });
             held = must!(cx, "setup:pull", { let a = cx.api.clone(); async move { a.pull(S0, 1, true).await } });
         }
@@ -138,7 +139,41 @@ fn blocking_unit(thorough: bool) -> Unit {
             return ScenarioOut::viol("blocking/returned-at-once", format!("a Pull without return_immediately on an empty subscription returned {}", log.key()));
         }
         let t_start = cx.now_ms();
-        let case = format!("event={} max={} after={}ms", ["none", "publish", "nack", "expiry"][ev], max, when_ms);
+        let case = format!("event={} max={} after={}ms", ["none", "publish", "nack", "expiry", "fruitless"][ev], max, when_ms);
+        if ev == 4 {
+            // woken several times with nothing to take: the wait limit still counts from the start of the request
+            let times: Vec<u64> = match cx.choose("fruitless-wake-ups", 3) { 0 => vec![100_000, 150_000], 1 => vec![30_000, 60_000, 90_000, 250_000], _ => vec![299_000] };
+            let steal = cx.choose("how", 2) == 1;
+            let mut now = 0u64;
+            for t in times {
+                tryv!(cx.advance_ms(t - now).await);
+                now = t;
+                if steal {
+                    // a message that a return_immediately Pull of another client takes before the waiting Pull is scheduled
+                    let a3 = cx.api.clone();
+                    let r = tryv!(cx.settle("client:b-publish-and-take", async move { a3.publish(T0, vec![(b"s".to_vec(), vec![])]).await?; a3.pull(S0, 10, true).await.map(|v| v.len()) }).await);
+                    if r == Ok(0) && h.is_finished() {
+                        // the waiting Pull won the race: legitimate, nothing to check in this execution
+                        return ScenarioOut::ok("waiting pull took the message");
+                    }
+                } else {
+                    let a3 = cx.api.clone();
+                    let _ = tryv!(cx.settle("client:b-empty-publish", async move { a3.publish(T0, vec![]).await }).await);
+                }
+                if h.is_finished() {
+                    return ScenarioOut::viol("blocking/empty-before-wait-limit", format!("max={} fruitless wake-up at {} ms: the Pull returned {} although nothing was available and {} ms of its wait limit remain", max, t, log.key(), 300_000 - t));
+                }
+            }
+            tryv!(cx.advance_ms(299_900 - now).await);
+            if h.is_finished() {
+                return ScenarioOut::viol("blocking/empty-before-wait-limit", format!("max={}: after fruitless wake-ups the Pull returned {} before its wait limit (at or before 299.9 s)", max, log.key()));
+            }
+            tryv!(cx.advance_ms(100 + SLACK_MS as u64).await);
+            if !h.is_finished() || log.key() != "pull:OK(0)" {
+                return ScenarioOut::viol("blocking/exceeds-wait-limit", format!("max={}: after fruitless wake-ups the Pull has not returned empty at 300 s + slack ({})", max, log.key()));
+            }
+            return ScenarioOut::ok("fruitless wake-ups, empty at the limit");
+        }
         match ev {
             0 => {
                 tryv!(cx.advance_ms(299_900).await);
